@@ -99,6 +99,15 @@ def random_scenario(rng: random.Random, nsims=(2, 4), nconns=(1, 5), until=(2, 4
     scn = S.normalize(scn)
     if rng.random() < 0.12:
         scn = S.rename_sids(scn)  # simulator ids with unusual characters
+    if rng.random() < 0.2:
+        # attributes of the SAME name on both sides (every model of the harness lists its outputs among its attributes): such a
+        # connection is written connect(a, b, 'p') / connect_one(a, b, 'p') - the destination name is omitted
+        types = {x["sid"]: x["type"] for x in scn["sims"]}
+        for c in scn["conns"]:
+            if (c["data"] and c["src"] != c["dst"] and types[c["dst"]] != "event-based" and S.is_pers(c["sa"]) and not c["trig"] and rng.random() < 0.5
+                    and not any(o is not c and (o["src"], o["se"], o["sa"], o["dst"], o["de"], o["da"]) == (c["src"], c["se"], c["sa"], c["dst"], c["de"], c["sa"])
+                                for o in scn["conns"])):
+                c["da"], c["trig"] = c["sa"], False
     return scn
 
 
